@@ -382,3 +382,19 @@ also12("C17", "no slice or map of the configuration — or of what a config gett
 also12("C18", "the observer forwards the end of its stream ⇔ the end switch is not thrown — the token the serial close waits for.")
 also12("C13", "a background loop that runs on a flag is stopped under the configuration it was started under (every raise of the flag has a lowering under no further configuration test).")
 also12("C19", "the retry bound of a round is read where it is defined — a local constant or the literal of the parameter bundle at the round's only call site.")
+
+
+def also13(pid, text):
+    t, x, r = CLAIMS[pid]
+    CLAIMS[pid] = (t, x + " ALSO DECIDED (twelfth seeded round, rare paths and shared values): " + text, r)
+
+also13("C03", "the functions handed to the observer constructor are method values of the stream; a re-open reads the current position at every attempt; a replayed snapshot announcement is installed whenever the gate passes.")
+also13("C05", "the range the position writer tests is re-derived at every Open; every documented default is applied also when only part of a section is configured.")
+also13("C07", "every cluster-map lookup of the mitigation is on the snapshot it adopted; defaulting derives the mitigation switch from nothing else.")
+also13("C09", "one heart-beat round of the leader evaluated whole: a follower is removed ⇔ its ping failed in this round.")
+also13("C10", "no package-level state is written after initialisation (per-client heart-beat settings); GetInfo of a bus-fed membership only reads.")
+also13("C12", "every end of a vBucket stream reaches the stream's own end listener (a method value, not a once-only closure).")
+also13("C13", "the operation record's signal channel is buffered (a timed-out request returns); an acknowledgement after Close meets fresh maps, never nil; the Ack closure marks the maps the next save reads.")
+also13("C15", "the rebalance decision is evaluated exhaustively (a change during the delayed re-open re-arms it); errors.As targets are read only under the true result of their own errors.As.")
+also13("C16", "the end listener handed to every observer is the stream's own (the active-stream gauge follows every end).")
+also13("C20", "a wrapper of an asynchronous operation waits for nothing but that operation and channels it made itself (no limiter, lock or queue in front of the deadline); errors.As targets are fresh.")
